@@ -30,7 +30,7 @@ ASSUMPTIONS = ["float64 only; central differences along random unit directions w
                "precision 1e-6 and is held constant by autograd); a mismatch must persist for h/10, 10h, h/100 and h/1000 (a kink of a piecewise-linear "
                "criterion or of the cost term inside the stencil does not)",
                "smooth activations only (a ReLU kink is not a generic parameter point)"]
-PROBES = ["evaluation_only_call_raised", "fd_frozen", "fd_replay", "prev_hedge_in_loss", "cost_positive", "H2", "criterion_parameter", "after_fit", "no_graph_price",
+PROBES = ["hedger_call_aborted_by_model", "evaluation_only_call_raised", "fd_frozen", "fd_replay", "prev_hedge_in_loss", "cost_positive", "H2", "criterion_parameter", "after_fit", "no_graph_price",
           "no_graph_loss", "ambient_enable_grad", "ambient_no_grad", "graph_monitor", "fd_retry_other_h", "listed_hedge", "n_times_ge2", "eval_mode", "fd_truncation_dominated"]
 CRITS = ["EntropicRiskMeasure", "ExpectedShortfall", "QuadraticCVaR", "EntropicLoss", "IsoelasticLoss", "OCE", "MSELoss", "L1Loss"]
 
@@ -65,7 +65,14 @@ def generate(rng):
         ops.append({"op": "other_batch", "n_paths": n + 1, "torch_seed": rng.seed31()})
         ops.append({"op": "simulate", "n_paths": n, "torch_seed": rng.seed31()})
     for _ in range(rng.randint(2, 5)):
-        k = rng.wchoice([("fd_frozen", 4), ("fd_replay", 4), ("no_graph", 2), ("seam", 1)])
+        k = rng.wchoice([("fd_frozen", 4), ("fd_replay", 4), ("no_graph", 2), ("seam", 1), ("aborted", 1.5)])
+        if k == "aborted":
+            # F8: the model raises at its k-th forward inside a hedger call; the call is aborted and the same objects are used again
+            ops.append({"op": "aborted", "hedge": hedge, "during": rng.choice(["price", "loss", "loss_nograd", "pl", "fit"]),
+                        "k": rng.randint(0, 3), "ambient": rng.choice([None, None, "enable_grad", "no_grad"]),
+                        "n_paths": rng.choice([2, 3]), "torch_seed": rng.seed31()})
+            ops.append({"op": "simulate", "n_paths": n, "torch_seed": rng.seed31()})
+            continue
         op = {"op": k, "hedge": hedge, "seed": rng.seed31(), "mode": rng.choice(["train", "train", "eval"])}
         if k == "fd_replay":
             op.update({"n_paths": rng.choice([2, 3, 5]), "n_times": rng.choice([1, 1, 2]), "torch_seed": rng.seed31()})
@@ -236,9 +243,53 @@ def _execute(program, stats, hist):
                 raise Inconclusive("simulate raised %r" % (e,))
             stats.market_years += op["n_paths"] * d.maturity
             hist.add(op="simulate", spot=thash(p0.spot))
+        elif name == "aborted":
+            class _Fault(RuntimeError):  # what torch itself raises on a shape or dtype error
+                pass
+
+            def before(kk, x, _k=op["k"]):
+                if kk >= _k:
+                    raise _Fault("injected at forward %d" % kk)
+            rec.reset()
+            rec.before = before
+            amb = op.get("ambient")
+            seen = [None]
+            raised = False
+            torch.manual_seed(op["torch_seed"])
+            try:
+                with _grad_ctx(amb):
+                    ambient_on = torch.is_grad_enabled()
+                    try:
+                        w = op["during"]
+                        if w == "price":
+                            h.price(d, hedge=hedge, n_paths=op["n_paths"])
+                        elif w == "loss":
+                            h.compute_loss(d, hedge=hedge, n_paths=op["n_paths"])
+                        elif w == "loss_nograd":
+                            h.compute_loss(d, hedge=hedge, n_paths=op["n_paths"], enable_grad=False)
+                        elif w == "fit":
+                            h.fit(d, hedge=hedge, n_epochs=1, n_paths=op["n_paths"], verbose=False, validation=bool(op["k"] % 2))
+                        else:
+                            d.simulate(n_paths=op["n_paths"])
+                            h.compute_pl(d, hedge=hedge)
+                    finally:
+                        seen[0] = (ambient_on, torch.is_grad_enabled())
+            except Exception:
+                raised = True   # the injected fault, or whatever the call raises on its own (e.g. no cash() on a torch loss)
+            finally:
+                rec.before = None
+                torch.set_grad_enabled(True)
+            stats.fault("F8_callback_exception")
+            stats.checks += 1
+            if seen[0] is not None and seen[0][0] != seen[0][1]:
+                raise Violation(ID, "grad_mode_leaked", "%s[model raised]" % op["during"],
+                                dict(cfg, ambient=amb, before=seen[0][0], after=seen[0][1], raised=raised), seq)
+            if raised:
+                stats.probe("hedger_call_aborted_by_model")
+            hist.add(op=name, during=op["during"], raised=raised)
         elif name == "fit1":
             torch.manual_seed(op["torch_seed"])
-            hd = world.hedge_list(program["ops"][-1].get("hedge"))
+            hd = world.hedge_list(next((o.get("hedge") for o in reversed(program["ops"]) if "hedge" in o), None))
             try:
                 h.fit(d, hedge=hd, n_epochs=1, n_paths=op["n_paths"], verbose=False, validation=False)
             except Exception as e:
@@ -247,7 +298,7 @@ def _execute(program, stats, hist):
             hist.add(op="fit1")
         elif name == "other_batch":
             torch.manual_seed(op["torch_seed"])
-            hd = world.hedge_list(program["ops"][-1].get("hedge"))
+            hd = world.hedge_list(next((o.get("hedge") for o in reversed(program["ops"]) if "hedge" in o), None))
             try:
                 d.simulate(n_paths=op["n_paths"])
                 h.compute_pl(d, hedge=hd)
